@@ -49,7 +49,9 @@ def main():
         meta["patch_applies"] = rc == 0
         if rc != 0:
             print("patch does not apply:", out)
-        rc, out = sh("/venv/bin/python -m pytest -q -p no:cacheprovider unit_tests 2>&1 | tail -3", cwd=wt, timeout=1800)
+        # PYTHONPATH: without it the editable install makes pytest import /repo/src instead of the patched worktree
+        rc, out = sh("/venv/bin/python -m pytest -q -p no:cacheprovider unit_tests 2>&1 | tail -3", cwd=wt, env=env,
+                     timeout=1800)
         m = re.search(r"(\d+) failed, (\d+) passed", out)
         meta["unit_tests"] = m.group(0) if m else out[-200:]
         tests_same = bool(m and m.group(1) == "2" and m.group(2) == "340")
